@@ -51,7 +51,7 @@ func init() {
 func runRegistryHistory(c *fw.Ctx, prop string, rules map[string]bool) {
 	r := c.Rng
 	o := RandOptions(r)
-	if prop == "C08" && r.Chance(50) { // tiny limits make pruning frequent
+	if (prop == "C08" && r.Chance(50)) || (prop == "C07" && r.Chance(40)) { // tiny limits make pruning frequent
 		o.Wrk.DefaultStorageLimit, o.Wrk.MaxStorageLimit = 1, uint64(r.Range(1, 4))
 		o.Beacon.DefaultStorageLimit, o.Beacon.MaxStorageLimit = uint64(r.Range(1, 2)), uint64(r.Range(2, 5))
 	}
@@ -59,6 +59,7 @@ func runRegistryHistory(c *fw.Ctx, prop string, rules map[string]bool) {
 	defer e.L.Cleanup()
 	e.Snap = true
 	g := NewGen(e)
+	g.SeqHeights = prop == "C07" && r.Chance(60)
 	filter := func(rule string) bool { return rules[rule] }
 	rm, mon := NewRegistryMonitor(e, filter)
 	e.Monitors = append(e.Monitors, mon)
@@ -169,6 +170,24 @@ func runRegistryHistory(c *fw.Ctx, prop string, rules map[string]bool) {
 		// occasional governance change of limits / fees
 		if r.Chance(6) {
 			regGovChange(e, r, prop)
+			if prop == "C08" && e.Halted == "" {
+				// after the limits moved (possibly below existing limits): every owner tries to buy one
+				// slot wrapped in MsgExec (nested purchases bypass the ante max-slot check)
+				e.BeginBlock(time.Second)
+				for _, w := range e.Last.Wrk {
+					if ow, ok := g.acctByAddr(w.Owner); ok && r.Chance(60) {
+						m := &wrkchaintypes.MsgPurchaseWrkChainStateStorage{WrkchainId: w.WrkchainId, Number: uint64(r.Range(1, 3)), Owner: ow.Addr.String()}
+						e.Deliver(&TxPlan{Spec: lab.TxSpec{Msgs: []sdk.Msg{WrapExec(ow, []sdk.Msg{m}, 1)}, Signers: []lab.Acct{ow}, Gas: 900_000}, Desc: fmt.Sprintf("Exec[WrkBuy(id=%d,n=%d)] by owner after limit change", w.WrkchainId, m.Number)})
+					}
+				}
+				for _, b := range e.Last.Beacons {
+					if ow, ok := g.acctByAddr(b.Owner); ok && r.Chance(60) {
+						m := &beacontypes.MsgPurchaseBeaconStateStorage{BeaconId: b.BeaconId, Number: uint64(r.Range(1, 3)), Owner: ow.Addr.String()}
+						e.Deliver(&TxPlan{Spec: lab.TxSpec{Msgs: []sdk.Msg{WrapExec(ow, []sdk.Msg{m}, 1)}, Signers: []lab.Acct{ow}, Gas: 900_000}, Desc: fmt.Sprintf("Exec[BcnBuy(id=%d,n=%d)] by owner after limit change", b.BeaconId, m.Number)})
+					}
+				}
+				e.EndBlock()
+			}
 			continue
 		}
 		// cross-product probe block
